@@ -16,7 +16,8 @@ ID = 'C20'
 TECHNIQUE = ('abstract evaluation of each look-up to a guarded normal form: the query predicate must normalise to '
              '`key - query >= 0`, the search must be an in-order scan or bisect_left(wrapper, True) / '
              'bisect_right(wrapper, False) over that predicate with both re-checks, the tie and deviation tests must '
-             'be non-strict; ordering enumeration of the sentinel guards; inventory of unchecked subscripts')
+             'be non-strict; ordering enumeration of the sentinel guards; inventory of unchecked subscripts; the apex '
+             'bisection by inductive invariants in a linear-constraint domain (engine F)')
 DECIDED = [
     'R1 index_at_distance is an ascending scan returning the first i with distance >= d (default -1); the helper '
     'predicates are `distance in the caller\'s unit >= query` and `time - query >= 0`; BisectWrapper exposes the '
@@ -25,8 +26,13 @@ DECIDED = [
     'deviation with <=',
     'R2 a -1 result is tested before any use as a subscript: get_at_distance raises ArithmeticError, '
     'find_time_for_distance_in_shot returns NaN; no call site subscripts an unchecked look-up result',
+    'R3 the apex helper hands the whole trajectory to its search, and the search - for every length - returns the first '
+    'row that is not lower than its successor of a single-peaked sequence (the highest row), with every index in '
+    'range: proved from branch conditions and Houdini-inferred loop invariants by Fourier-Motzkin refutation (engine '
+    'F, the rising-at-i predicate abstracted as a derived ascending sequence); counterexamples (wrong row, index out '
+    'of range, non-termination) from a finite family of lengths and apex positions',
 ]
-NOT_DECIDED = ['the apex search, and "exactly what a sequential scan finds" on arbitrary data: for non-decreasing keys it '
+NOT_DECIDED = ['"exactly what a sequential scan finds" on arbitrary data: for non-decreasing keys it '
                'follows from the documented contract of bisect over a False..True sequence, which is trusted, not '
                'analysed']
 
@@ -61,8 +67,137 @@ def _is_ge(ev, v, key_sym: str, q_sym: str) -> Optional[str]:
     return None
 
 
+def check_apex(prog: Program, rep, rule: str) -> None:
+    """The apex helper.  (a) find_index_of_apex_point hands the whole trajectory to the search (engine D).  (b) The
+    search itself (engine F): on a single-peaked sequence - `h[i] < h[i+1]` true up to some row and false from there
+    on - the index returned is the first row that is not lower than its successor, i.e. the highest row; every index
+    is in range; an empty sequence gives -1.  The predicate `rising at i` is abstracted as s[i] < 0 over a derived
+    ascending sequence s of length n-1, which is exactly single-peakedness."""
+    from fractions import Fraction
+    from .. import loopproof as L
+    hp = prog.module(C.M_HELP)
+    if not prog.has_func(C.M_HELP, 'find_index_of_apex_in_points') or not prog.has_func(C.M_HELP, 'find_index_of_apex_point'):
+        raise AnalysisError('the apex helpers vanished')
+    wrap = prog.func(C.M_HELP, 'find_index_of_apex_point')
+    srch = prog.func(C.M_HELP, 'find_index_of_apex_in_points')
+    rep.saw(wrap)
+    rep.saw(srch)
+    # (a) the wrapper
+    got: List[object] = []
+
+    def h_search(ev_, func, args, kwargs, st_, self_val):
+        got.append(args[0] if args else next(iter(kwargs.values()), None))
+        return SymObj('apex@result')
+    evw = Evaluator(prog, hooks={f'call:{srch.qualname}': h_search})
+    try:
+        r, _st = evw.call_value(wrap, [SymObj('shot')])
+        outs = [x for _p, x in cond_leaves(r)]
+        whole = all(isinstance(a_, SymObj) and a_.path == 'shot.trajectory' for a_ in got)
+        passed = all(isinstance(x, SymObj) and x.path == 'apex@result' for x in outs)
+        if got and whole and passed:
+            rep.ok(rule, wrap.where, 'find_index_of_apex_point searches the whole trajectory and returns the index found')
+        elif got and not whole:
+            bad = next(a_ for a_ in got if not (isinstance(a_, SymObj) and a_.path == 'shot.trajectory'))
+            rep.fail(rule, hp.path, wrap.node.lineno, wrap.qualname, 'apex-window',
+                     f'find_index_of_apex_point searches {bad!r} on some path, not the whole trajectory: a highest row '
+                     f'outside that window is never returned')
+        else:
+            rep.undecided(rule, wrap.where, 'apex wrapper', f'returns {outs!r}: not the index found by the search')
+    except Undecided as exc:
+        rep.undecided(rule, wrap.where, 'apex wrapper', f'not readable by engine D: {exc}')
+    # (b) the search
+    tp = srch.positional[0]
+
+    def hook(node: ast.Compare, tr):
+        if len(node.ops) != 1:
+            return None
+        l, r_ = node.left, node.comparators[0]
+
+        def height_at(e):
+            if isinstance(e, ast.Attribute) and e.attr == 'height' and isinstance(e.value, ast.Subscript) \
+                    and isinstance(e.value.value, ast.Name) and e.value.value.id == tp:
+                return e.value.slice
+            return None
+        i, j = height_at(l), height_at(r_)
+        if i is None or j is None:
+            return None
+        up = ('cmp', '<', ('elem', '$rise', tr.expr(i)), ('int', 0))          # h[i] < h[i+1]
+        if norm(j) in (f'{norm(i)} + 1', f'1 + {norm(i)}'):
+            table = {ast.Lt: up, ast.GtE: ('not', up)}
+        elif norm(i) in (f'{norm(j)} + 1', f'1 + {norm(j)}'):
+            up = ('cmp', '<', ('elem', '$rise', tr.expr(j)), ('int', 0))
+            table = {ast.Gt: up, ast.LtE: ('not', up)}
+        else:
+            return None
+        return table.get(type(node.ops[0]))      # <= / > between neighbours differ from the predicate on plateaus: not abstracted
+
+    roles = L.Roles(arrays={tp: None, '$rise': 'nonstrict'}, len_offset={'$rise': (tp, -1)}, min_len={tp: 1},
+                    compare_hook=hook)
+    rep.assume('apex search: the sequence is single-peaked (h[i] < h[i+1] holds up to some row and fails from there on); '
+               'among equal highest rows the first is the one asked for')
+
+    def goal(ab, st, tag, v, node):
+        if tag != 'return':
+            return []
+        if v is None or v.kind != 'int':
+            return [(L.F_, f'line {node.lineno}: the value returned is not an index')]
+        r_ = v.lin
+        n_ = ab.len_of(tp)
+        zero, one = L.Lin.const(0), L.Lin.const(1)
+        before = L.Lin.var(ab.pr.elem_term('$rise', r_ - one))
+        at = L.Lin.var(ab.pr.elem_term('$rise', r_))
+        g = L.f_and(L.f_le(zero, r_), L.f_le(r_, n_.plus(-1)),
+                    L.f_or(L.f_eq(r_, zero), L.f_lt(before, zero)),
+                    L.f_or(L.f_eq(r_, n_.plus(-1)), L.f_le(zero, at)))
+        return [(g, f'line {node.lineno}: the index returned is the first row not lower than its successor (the highest row)')]
+
+    def inputs():
+        yield {tp: [], '$rise': []}
+        for n in range(1, 9):
+            for p_ in range(n):                       # apex at row p_
+                rise = [Fraction(-1) if i < p_ else Fraction(1) for i in range(n - 1)]
+                yield {tp: [None] * n, '$rise': rise, '$apex': p_}
+
+    def oracle(inp, c, outcome):
+        n = len(inp[tp])
+        where = f'{n} rows, apex at row {inp.get("$apex")}'
+        if outcome[0] in ('raise', 'hang'):
+            return f'{where}: {outcome[1]}'
+        if outcome[0] != 'return':
+            return f'{where}: no index returned'
+        want = -1 if n == 0 else inp['$apex']
+        if outcome[1] != want:
+            return f'{where}: returns {outcome[1]}, the highest row is {want}'
+        return None
+
+    try:
+        res = L.analyse_search(srch.node, roles, goal, inputs(), oracle)
+    except L.Unsupported as exc:
+        rep.undecided(rule, srch.where, 'apex search', f'outside the fragment engine F reads: {exc}')
+        return
+    rep.extra['apex_proof'] = {'loops': res.loop_info, 'invariants': list(res.invariants.values()),
+                               'prover_calls': res.prover_calls, 'concrete_inputs': res.concrete_runs,
+                               'concrete_inputs_not_readable': res.concrete_unknown,
+                               'obligations': [{'text': L.pretty(o.text), 'status': o.status} for o in res.obligations][:30]}
+    unknown = [o for o in res.obligations if o.status != 'proved']
+    if res.witnesses:
+        rep.fail(rule, hp.path, srch.node.lineno, srch.qualname, 'apex-search',
+                 'counterexample: ' + res.witnesses[0] + (f'; unproved: {L.pretty(unknown[0].text)}' if unknown else ''))
+        return
+    if not [o for o in res.obligations if o.tag == 'return']:
+        rep.undecided(rule, srch.where, 'apex search', 'no return site reached in the abstract reading')
+    for o in res.obligations:
+        where = f'{hp.path}:{getattr(o.node, "lineno", srch.node.lineno)}'
+        if o.status == 'proved':
+            rep.ok(rule, where, L.pretty(o.text))
+        else:
+            rep.undecided(rule, where, L.pretty(o.text), 'not proved from the inferred invariants and no counterexample in the finite family')
+
+
 def run(prog: Program, rep, thorough: bool) -> None:
     A.reset()
+    rep.rule('C20.R3', 'apex helper: whole trajectory searched; the search returns the highest row of a single-peaked sequence', 2)
+    check_apex(prog, rep, 'C20.R3')
     rep.rule('C20.R1', 'look-ups are first-qualifying searches over >= predicates', 7)
     rep.rule('C20.R2', 'sentinel discipline', 3)
     td = prog.module(C.M_TD)
@@ -449,6 +584,12 @@ def run(prog: Program, rep, thorough: bool) -> None:
 HP = 'py_ballisticcalc/helpers.py'
 TDF = 'py_ballisticcalc/trajectory_data/_trajectory_data.py'
 VARIANTS = [
+    Variant('apex-right-mid-minus-1', 'break', [(HP, '            # Move left to the decreasing side (possible apex)\n            right = mid\n', '            # Move left to the decreasing side (possible apex)\n            right = mid - 1\n')], 'C20.R3', 'the apex itself is skipped'),
+    Variant('apex-left-not-advanced', 'break', [(HP, '            # Move right to the increasing side\n            left = mid + 1\n', '            # Move right to the increasing side\n            left = mid\n')], 'C20.R3', 'never terminates on two rising rows'),
+    Variant('apex-window-cut-at-touch-point', 'break', [(HP, '    return find_index_of_apex_in_points(shot.trajectory)', '    k = find_touch_point_index(shot)\n    return find_index_of_apex_in_points(shot.trajectory[:k + 1] if k > 0 else shot.trajectory)')], 'C20.R3', 'seeded change C20/5'),
+    Variant('apex-test-reversed', 'break', [(HP, '        if trajectory_points[mid].height < trajectory_points[mid + 1].height:', '        if trajectory_points[mid].height >= trajectory_points[mid + 1].height:')], 'C20.R3'),
+    Variant('twin-apex-compare-swapped', 'twin', [(HP, '        if trajectory_points[mid].height < trajectory_points[mid + 1].height:', '        if trajectory_points[mid + 1].height > trajectory_points[mid].height:')], None),
+    Variant('twin-apex-loop-ne', 'twin', [(HP, '    left, right = 0, points_count - 1\n    while left < right:', '    left, right = 0, points_count - 1\n    while left != right:')], None, 'left <= right is invariant, so != is < (proved)'),
     Variant('nearest-tie-strict', 'break', [(HP, '    if abs(value_getter(arr[before]) - target_value) <= abs(\n        value_getter(arr[after]) - target_value\n    ):', '    if abs(value_getter(arr[before]) - target_value) < abs(\n        value_getter(arr[after]) - target_value\n    ):')], 'C20.R1', '', 'pass'),
     Variant('index-at-distance-strict', 'break', [(TDF, 'if self.trajectory[i].distance >= d), -1)', 'if self.trajectory[i].distance > d), -1)')], 'C20.R1', 'positive control', 'caught'),
     Variant('helper-distance-strict', 'break', [(HP, 'lambda p: (p.distance >> distance_unit) >= distance', 'lambda p: (p.distance >> distance_unit) > distance')], 'C20.R1', 'positive control', 'caught'),
